@@ -81,10 +81,20 @@ def run(ctx):
     if ctx.quick:
         grid = rng.sample(grid, 12000)
     cases = []   # (input, scope obj, pattern obj, impl verdict)
+    pre_violations = []
     for sc, pk, ev in grid:
         shadow = rng.random() < 0.15
-        # (not on an event whose own alias is the quantified name: alias normalisation would capture the variable)
-        objs = {p: HplSimpleEvent.publish(topics[p], (preds_q if shadow and a != (r[0] if r else 'X') else preds)[r], alias=a) for p, (a, r) in ev.items()}
+        # (also on an event whose own alias is the quantified name: the alias normalisation must not capture the bound variable)
+        try:
+            objs = {p: HplSimpleEvent.publish(topics[p], (preds_q if shadow else preds)[r], alias=a) for p, (a, r) in ev.items()}
+        except Exception as e:
+            # every predicate of the grid is valid on its own: an event constructor that rejects one breaks clause (i)
+            pre_violations.append({'input': {'route': 'api-grid', 'scope': sc, 'pattern': pk, 'quantifier_binds_a_referenced_name': shadow,
+                                             'events': {p: {'alias': a, 'refs': list(r)} for p, (a, r) in ev.items()}},
+                                   'impl': classify_exception(e), 'message': str(e)[:200],
+                                   'what': 'an event with a valid predicate was rejected at construction (a quantified variable named like the '
+                                           "event's own alias is not a reference to the event)", 'signature': 'event-rejected:own-alias-captures-quantified-variable'})
+            continue
         scope = HplScope(ST[sc], activator=objs.get('activator'), terminator=objs.get('terminator'))
         pattern = HplPattern(PT[pk], objs['behaviour'], objs.get('trigger'))
         v = verdict(lambda: HplProperty(scope, pattern))
@@ -133,8 +143,26 @@ def run(ctx):
         built += 1
         cases.append(({'route': 'text/api/but', 'text': txt}, scope, pattern, [v_api, v_text, v_but]))
 
+    # ---- B': the event's own alias is also the name of a variable quantified in its predicate (written texts) -------------
+    for txt in ('globally: no t as i {forall i in xs: @i > 0 and x = 1}',
+                'globally: no t as i {(forall i in xs: @i > 0) and @i.x > 0}',
+                'globally: some t as i {exists i in xs: (@i > x and (forall j in ys: @j < @i))}',
+                'after s as j: t as i {exists i in xs: @i > @j.x} causes u {@i.x > 0}',
+                'after s as j {forall j in xs: @j > 0}: no t {@j.x > 0}',
+                'globally: (a as i {forall i in xs: @i > 0} or b as k {@k.x > 0 and exists k in xs: @k = 1}) requires c',
+                'until q as i {not exists i in {1, 2}: @i = x}: c forbids d'):
+        try:
+            ast = pp.parse(txt)
+        except Exception as e:
+            pre_violations.append({'input': {'route': 'text-own-alias-is-quantified-name', 'text': txt}, 'impl': classify_exception(e), 'message': str(e)[:200],
+                                   'what': "a property whose event alias is also the name of a variable quantified in the event's predicate was rejected",
+                                   'signature': 'event-rejected:own-alias-captures-quantified-variable'})
+            continue
+        cases.append(({'route': 'text-own-alias-is-quantified-name', 'text': txt}, ast.scope, ast.pattern, ['ok']))
+
     # ---- judge ---------------------------------------------------------------------------------------------
-    disagreements, violations = [], []
+    disagreements = []
+    violations = list(pre_violations)
     lines_m, lines_s, idx = [], [], []
     for i, (inp, scope, pattern, vs) in enumerate(cases):
         if scope is None:
